@@ -412,20 +412,76 @@ class GmpyInvert(_Backend):
 # qaptools: Sig is a list of (coefficient, wire name) pairs
 # ---------------------------------------------------------------------------
 
+# loop-free companion shapes for the Sig operations: concrete wire names (repeated on purpose), symbolic coefficients
+SIG_SHAPES = [
+    (["w1", "w1", "w2"], ["w1", "w3"]),
+    ([], ["w1"]),
+    (["w1", "w2", "w1", "w1"], ["w2", "w1", "w1"]),
+]
+
+
 class _SigOp(_Backend):
+    """Sig (qaptools linear combination) algebra.  Two kinds of configuration: arbitrary sequences (what the code on the
+    pinned tree does: concatenation / element-wise scaling, stated pointwise), and concrete shapes with symbolic
+    coefficients where the clause is the algebraic one the property needs: per wire, the coefficients of the result sum
+    to the sum / difference / multiple of the operands' coefficients modulo p."""
     module = QAP
     op = None
 
     def configs(self, tier):
-        return [dict(shape="arbitrary sequences of (coefficient, wire) pairs")]
+        out = [dict(shape="arbitrary sequences of (coefficient, wire) pairs")]
+        for i in range(len(SIG_SHAPES)):
+            if self.op == "__mul__":
+                out += [dict(shape="concrete", idx=i, k=k) for k in (3, -2, 0)]
+            else:
+                out.append(dict(shape="concrete", idx=i))
+        return out
 
     def setup(self, c, cfg):
         m = self.mod(c)
+        if cfg["shape"] == "concrete":
+            na, nb = SIG_SHAPES[cfg["idx"]]
+            a = m.Sig([(SymInt(z3.Int("s_a%d" % i)), w) for i, w in enumerate(na)])
+            if self.op in ("__add__", "__sub__"):
+                b = m.Sig([(SymInt(z3.Int("s_b%d" % i)), w) for i, w in enumerate(nb)])
+            elif self.op == "__mul__":
+                b = cfg["k"]
+            else:
+                b = None
+            self._a0 = list(a.sig)
+            self._b0 = list(b.sig) if hasattr(b, "sig") else None
+            return getattr(m.Sig, self.op), (a,) if b is None else (a, b), {}
         a = m.Sig(SymList("a", 2))
         b = m.Sig(SymList("b", 2)) if self.op in ("__add__", "__sub__") else (c.public_int("k") if self.op == "__mul__" else None)
         return getattr(m.Sig, self.op), (a,) if b is None else (a, b), {}
 
+    def _post_concrete(self, c, r, a, b):
+        m = self.mod(c)
+        p = m.vc_p
+        d = {"V.type": isinstance(r, m.Sig) and isinstance(r.sig, list) and all(isinstance(t, tuple) and len(t) == 2 and isinstance(t[1], str) for t in r.sig),
+             "F.operands_unchanged": list(a.sig) == self._a0 and (self._b0 is None or list(b.sig) == self._b0),
+             "F.fresh_result": r is not a and (not hasattr(b, "sig") or r is not b)}
+        if not d["V.type"]:
+            return d
+        wires = sorted({w for _, w in self._a0} | {w for _, w in (self._b0 or [])} | {w for _, w in r.sig})
+        tot = lambda sig, w: z3.Sum([z3.IntVal(0)] + [term(cf) for cf, v in sig if v == w])
+        for w in wires:
+            A = tot(self._a0, w)
+            if self.op == "__add__":
+                want = A + tot(self._b0, w)
+            elif self.op == "__sub__":
+                want = A - tot(self._b0, w)
+            elif self.op == "__mul__":
+                want = A * b
+            else:
+                want = -A
+            d["V.coefficient_sum[%s]" % w] = modeq(tot(r.sig, w), want, p)
+        d["canary.V.coefficient_sum"] = modeq(tot(r.sig, wires[0]), tot(self._a0, wires[0]) + 1, p) if wires else False
+        return d
+
     def post(self, c, r, a, b=None):
+        if c.cfg["shape"] == "concrete":
+            return self._post_concrete(c, r, a, b)
         m = self.mod(c)
         p = m.vc_p
         i = cur().fresh("i")
@@ -455,6 +511,15 @@ class _SigOp(_Backend):
             d["V.reduced"] = Implies(inb, And(rc >= 0, rc < p))
         return d
 
+
+def _sig_replay(self, ob, cfg):
+    if cfg.get("shape") != "concrete":
+        return dict(confirmed=False, note="arbitrary-sequence configuration: no concrete operands to replay")
+    from .qaptools_c import _qap_replay
+    return _qap_replay(self, ob, cfg, kind="qap")
+
+
+_SigOp.native_replay = _sig_replay
 
 for _op in ("__add__", "__sub__", "__mul__", "__neg__"):
     register(type("Sig" + _op.strip("_").title(), (_SigOp,), dict(name="%s:Sig.%s" % (QAP, _op), op=_op)))
